@@ -72,8 +72,9 @@ Next ==
                  /\ Ok(Follows(e.a, lasta), e, "C10:audio-frames-lost-duplicated-or-reordered-across-segments")
                  /\ Ok(e.v # <<>> \/ e.a # <<>>, e, "C10:empty-segment")
                  /\ IF e.seq > 1 /\ e.fk = "non"
-                    THEN \* the cause is named from the outside: how long the previous segment had been open
-                         IF maxSeq \in DOMAIN known /\ FirstPts(e) - FirstPts(known[maxSeq]) >= 2 * F
+                    THEN \* the cause is named from the outside: how long the previous segment had been open (the very first
+                         \* segment counts from time 0, not from its first frame)
+                         IF maxSeq \in DOMAIN known /\ FirstPts(e) - (IF maxSeq = 1 THEN 0 ELSE FirstPts(known[maxSeq])) >= 2 * F
                          THEN Bad(e, "C10:segment-starts-with-a-non-key-frame:cut-at-twice-the-fragment-length")
                          ELSE Bad(e, "C10:segment-starts-with-a-non-key-frame")
                     ELSE TRUE
